@@ -100,7 +100,7 @@ func (c *Ctx) correspond(s *SuiteStat, cases []corrCase) {
 func genEligible(line string) bool {
 	for _, p := range []string{"dec msg ", "dec hdr ", "dec pl-", "dec chain-", "enc msg ", "reenc msg ",
 		"dec eap ", "dec eapm-", "enc eap ", "reenc eap ", "akaset ", "akamac ", "akamac-built ", "akaprf ", "prfplus ", "dectr ", "dhpub ", "dhshared ", "cbc-encrypt ", "cbc-decrypt ",
-		"genrandom ", "protect ", "unprotect ", "ikekeys ", "ikekeys2 ", "childkeys ", "childkeys2 ", "saops "} {
+		"genrandom ", "build ", "protect ", "unprotect ", "ikekeys ", "ikekeys2 ", "childkeys ", "childkeys2 ", "saops "} {
 		if strings.HasPrefix(line, p) {
 			return true
 		}
